@@ -134,14 +134,20 @@ _pb("C09", "contract-based deductive verification (pyvc) of grammarconst.label_s
     "label_strip_fanout removes exactly the maximal trailing digit run and raises IndexError exactly for all-digit "
     "labels (proved, with termination). File formats and the CLI are bounded only.",
     "proof for label_strip_fanout, bounded stand-in for the writers/readers; 'other'")
-_pb("C11", "contract-based deductive verification (pyvc) of filter_by_length and of trees.delete_terminal (three loops: climb to the root, upward pruning with list removal, renumbering) + a lemma over its contract; bounded stand-in for the token-editing transformations",
+_pb("C11", "contract-based deductive verification (pyvc) of filter_by_length and of trees.delete_terminal (three loops: climb to the root, upward pruning with list removal, renumbering) + a lemma over its contract, and of one step of insert_terminals and of substitute_terminals as block contracts (the lookup in the parameter-file table abstracted to an opaque pair); bounded stand-in for the token-editing transformations",
     "filter_by_length drops exactly the trees the operator names. delete_terminal, the kernel of punctuation and trace "
     "deletion, is proved for every well-formed tree and token: it returns the lowest ancestor of the token that keeps a "
     "child (else the root), unlinks the token and exactly the unary ancestors it empties, leaves every other child list "
     "as it was, and moves the number of every later token down by one while all other numbers stay; hence (lemma) tokens "
-    "numbered 1..n end up numbered 1..n-1 in the same order. The transformations that call it repeatedly (on a tree that "
-    "changes between the calls), insertion / substitution and trace handling are bounded only.",
-    "proof for filter_by_length and delete_terminal, bounded stand-in for the rest; 'other'")
+    "numbered 1..n end up numbered 1..n-1 in the same order. One step of insert_terminals (the real loop body; the two "
+    "look-ups in the parameter-file table, a function attribute, replaced by one opaque pair) ignores every index outside "
+    "1..n+1 (0 and negatives included) without touching the heap, and otherwise creates one fresh token with that number "
+    "and the table's word / tag under the root, moves the tokens numbered >= index up by one and changes nothing else "
+    "(lemma: tokens 1..n plus the new one are numbered 1..n+1). One step of substitute_terminals ignores every index outside "
+    "1..n and otherwise replaces the word of exactly that token, its tag iff the file gives one, nothing else. Reading the "
+    "parameter file, the composition of the steps, the transformations that call delete_terminal repeatedly and trace "
+    "handling are bounded only.",
+    "proof for filter_by_length, delete_terminal and the two editing steps, bounded stand-in for the rest; 'other'")
 _pb("C12", "contract-based deductive verification (pyvc): lemmas over the contracts of lca and terminals (the target exists, is a constituent dominating both neighbours, and does not lie at or below the moved child) + mover step of root_attach; bounded stand-in against the set-based reference",
     "root_attach's target is never None and is a constituent dominating both neighbours (lemma over the proved lca "
     "contract); it is neither the moved child nor below it, so the re-attachment creates no cycle (lemma over the "
